@@ -1451,3 +1451,123 @@ VARIANTS += [
  dict(name='ownership-answers-computed-once-constants-swapped', expect='flagged(routing/)',
       edits=once_shape(answers=ANSWERS_ONCE.replace('CapabilityTrustedIdentityVerifier)', 'CapabilityX)').replace('CapabilityRevocationCheckVerifier)', 'CapabilityTrustedIdentityVerifier)').replace('CapabilityX)', 'CapabilityRevocationCheckVerifier)'))),
 ]
+
+# ---- fourth pass: the lookup helper is the BODY of the named branch — `if verificationPluginName != "" {…}` stays in
+# ---- processSignature, what stood inside it is (*verifier).locateVerificationPlugin(ctx, name, signerInfo, config)
+# ---- (held-out refactoring C12-1 of the fourth batch); further members of the class: the cut behind the reading of the
+# ---- minimum version, a free function handed the manager, the test spelled the other way round
+_nb_a = OLD_LOOKUP.index('\t\tlogger.Debugf("Finding verification plugin %q"')
+_nb_b = OLD_LOOKUP.rindex('\t}\n')
+OLD_NAMED_BODY = OLD_LOOKUP[_nb_a:_nb_b]
+assert _SRC_V.count(OLD_NAMED_BODY) == 1
+def _dedent(text):
+    return ''.join(l[1:] if l.startswith('\t') else l for l in text.splitlines(True))
+_nb = _dedent(OLD_NAMED_BODY)
+_nb = _nb.replace('&outcome.EnvelopeContent.SignerInfo', 'signerInfo').replace('return notation.', 'return nil, nil, notation.').replace('\t\treturn err\n', '\t\treturn nil, nil, err\n')
+_nb = sub(_nb, '\tinstalledPlugin, err = v.pluginManager.Get(', '\tinstalledPlugin, err := v.pluginManager.Get(')
+_nb = sub(_nb, '\tfor _, capability := range metadata.Capabilities {\n', '\tvar pluginCapabilities []pluginframework.Capability\n\tfor _, capability := range metadata.Capabilities {\n')
+BODY_HELPER = ('func (v *verifier) locateVerificationPlugin(ctx context.Context, verificationPluginName string, signerInfo *signature.SignerInfo, pluginConfig map[string]string) (pluginframework.VerifyPlugin, []pluginframework.Capability, error) {\n'
+    + '\tlogger := log.GetLogger(ctx)\n\n' + _nb + '\treturn installedPlugin, pluginCapabilities, nil\n}\n\n')
+BODY_CALL = '''		installedPlugin, pluginCapabilities, err = v.locateVerificationPlugin(ctx, verificationPluginName, &outcome.EnvelopeContent.SignerInfo, pluginConfig)
+		if err != nil {
+			return err
+		}
+'''
+def body_shape(helper=BODY_HELPER, call=BODY_CALL, more=()):
+    return [(V, OLD_NAMED_BODY, call), (V, ANCHOR, helper + ANCHOR)] + list(more)
+
+# the cut one statement further down: the minimum version is read by processSignature and handed in
+_MV_READ = '''	verificationPluginMinVersion, err := getVerificationPluginMinVersion(signerInfo)
+	if err != nil && err != errExtendedAttributeNotExist {
+		return nil, nil, notation.ErrorVerificationInconclusive{Msg: fmt.Sprintf("error while getting plugin minimum version, error: %s", err)}
+	}
+
+'''
+BODY_HELPER_MV = sub(sub(BODY_HELPER, _MV_READ, ''), 'verificationPluginName string, signerInfo *signature.SignerInfo, ', 'verificationPluginName, verificationPluginMinVersion string, ')
+BODY_CALL_MV = '''		verificationPluginMinVersion, err := getVerificationPluginMinVersion(&outcome.EnvelopeContent.SignerInfo)
+		if err != nil && err != errExtendedAttributeNotExist {
+			return notation.ErrorVerificationInconclusive{Msg: fmt.Sprintf("error while getting plugin minimum version, error: %s", err)}
+		}
+		installedPlugin, pluginCapabilities, err = v.locateVerificationPlugin(ctx, verificationPluginName, verificationPluginMinVersion, pluginConfig)
+		if err != nil {
+			return err
+		}
+'''
+# a free function that is handed the manager
+BODY_FUNC = sub(sub(sub(BODY_HELPER, 'func (v *verifier) locateVerificationPlugin(ctx context.Context, ', 'func locateVerificationPlugin(ctx context.Context, manager plugin.Manager, '),
+    '\tif v.pluginManager == nil {', '\tif manager == nil {'), 'v.pluginManager.Get(', 'manager.Get(')
+BODY_CALL_FUNC = sub(BODY_CALL, 'v.locateVerificationPlugin(ctx, ', 'locateVerificationPlugin(ctx, v.pluginManager, ')
+# the test in processSignature spelled with the empty side first (guard form): `if name == "" { nothing to look up } else { … }`
+NAMED_IF = '\tif verificationPluginName != "" {\n' + OLD_NAMED_BODY + '\t}\n'
+assert _SRC_V.count(NAMED_IF) == 1
+ELSE_FORM = '\tif verificationPluginName == "" {\n\t\tlogger.Debug("The signature names no verification plugin")\n\t} else {\n' + BODY_CALL + '\t}\n'
+
+VARIANTS += [
+ dict(name='benign-lookup-body-helper', expect='silent', edits=body_shape(),
+      why='the body of `if verificationPluginName != ""` is (*verifier).locateVerificationPlugin(ctx, name, signerInfo, config); the name test stays in processSignature (refactoring C12-1, fourth batch)'),
+ dict(name='benign-lookup-body-helper-cut-behind-min-version', expect='silent', edits=body_shape(helper=BODY_HELPER_MV, call=BODY_CALL_MV),
+      why='same extraction cut one statement further down: processSignature reads the minimum version (inside the named branch) and hands it in'),
+ dict(name='benign-lookup-body-helper-function-form', expect='silent', edits=body_shape(helper=BODY_FUNC, call=BODY_CALL_FUNC),
+      why='the body helper as a free function that is handed v.pluginManager'),
+ dict(name='benign-lookup-body-helper-else-form', expect='silent', edits=[(V, NAMED_IF, ELSE_FORM), (V, ANCHOR, BODY_HELPER + ANCHOR)],
+      why='processSignature tests name == "" and calls the body helper in the else branch'),
+ # the body helper with the property broken
+ dict(name='lookup-body-helper-error-dropped', expect='flagged(plugin/lookup-error)',
+      edits=body_shape(call='\t\tinstalledPlugin, pluginCapabilities, _ = v.locateVerificationPlugin(ctx, verificationPluginName, &outcome.EnvelopeContent.SignerInfo, pluginConfig)\n')),
+ dict(name='lookup-body-helper-get-error-ignored', expect='flagged(plugin/get-error)',
+      edits=body_shape(helper=sub(BODY_HELPER, 'Get(ctx, verificationPluginName)\n\tif err != nil {', 'Get(ctx, verificationPluginName)\n\tif err != nil && installedPlugin == nil {'))),
+ dict(name='lookup-body-helper-manager-nil-unchecked', expect='flagged(plugin/manager-nil)',
+      edits=body_shape(helper=sub(BODY_HELPER, '\tif v.pluginManager == nil {', '\tif v.pluginManager == nil && pluginConfig != nil {'))),
+ dict(name='lookup-body-helper-no-capability-accepted', expect='flagged(plugin/no-capability)',
+      edits=body_shape(helper=sub(BODY_HELPER, '\tif len(pluginCapabilities) == 0 {', '\tif len(pluginCapabilities) == 0 && pluginConfig != nil {'))),
+ dict(name='lookup-body-helper-min-version-attr-ignored', expect='flagged(plugin/min-version-attr)',
+      edits=body_shape(helper=sub(BODY_HELPER, '\tif err != nil && err != errExtendedAttributeNotExist {\n\t\treturn nil, nil, notation.', '\tif err != nil && err != errExtendedAttributeNotExist && pluginConfig != nil {\n\t\treturn nil, nil, notation.'))),
+ dict(name='lookup-body-helper-min-version-attr-ignored-by-caller', expect='flagged(plugin/min-version-attr)',
+      edits=body_shape(helper=BODY_HELPER_MV, call=sub(BODY_CALL_MV, '\t\tif err != nil && err != errExtendedAttributeNotExist {', '\t\tif err != nil && err != errExtendedAttributeNotExist && pluginConfig != nil {')),
+      why='the cut behind the minimum version: the caller lets a malformed attribute pass'),
+ dict(name='lookup-body-helper-name-attr-error-ignored', expect='flagged(plugin/name-attr)',
+      edits=body_shape(more=[(V, '\t// use plugin, but getPluginName returns an error\n\tif err != nil && err != errExtendedAttributeNotExist {\n', '\t// use plugin, but getPluginName returns an error\n\tif err != nil && err != errExtendedAttributeNotExist && pluginConfig != nil {\n')]),
+      why='the name is a parameter of the helper; the obligation on its reader is decided in the caller'),
+ dict(name='lookup-body-helper-hands-back-nil-plugin', expect='flagged(plugin/lookup-results)',
+      edits=body_shape(helper=sub(BODY_HELPER, '\treturn installedPlugin, pluginCapabilities, nil\n', '\treturn nil, pluginCapabilities, nil\n')),
+      why='a plugin is named and found, the processing function is told there is none: it is never executed'),
+ dict(name='lookup-body-helper-early-success-exit', expect='flagged(plugin/lookup-results)',
+      edits=body_shape(helper=sub(BODY_HELPER, '\tif v.pluginManager == nil {\n', '\tif pluginConfig == nil {\n\t\treturn nil, nil, nil\n\t}\n\tif v.pluginManager == nil {\n')),
+      why='with a plugin named and no plugin config the helper answers "nothing found" without an error'),
+ dict(name='lookup-body-helper-unfiltered-capabilities', expect='flagged(routing/declared-capabilities)',
+      edits=body_shape(helper=sub(BODY_HELPER, '\treturn installedPlugin, pluginCapabilities, nil\n', '\treturn installedPlugin, metadata.Capabilities, nil\n'))),
+ dict(name='lookup-body-helper-looks-up-other-name', expect='flagged(plugin/)',
+      edits=body_shape(call=sub(BODY_CALL, '(ctx, verificationPluginName, &outcome', '(ctx, policyName, &outcome')),
+      why='the helper is entered under the test of the signature\'s plugin name but looks up another string'),
+ dict(name='lookup-body-helper-entered-under-weaker-test', expect='flagged(plugin/)',
+      edits=[(V, NAMED_IF, '\tif verificationPluginName != "" || pluginConfig != nil {\n' + BODY_CALL + '\t}\n'), (V, ANCHOR, BODY_HELPER + ANCHOR)],
+      why='the helper no longer runs exactly when a plugin is named: its exits are not "plugin named" exits'),
+ dict(name='lookup-body-helper-capabilities-primed-by-caller', expect='flagged(routing/declared-capabilities)',
+      edits=body_shape(more=[(V, '\tvar pluginCapabilities []pluginframework.Capability\n\tverificationPluginName, err := getVerificationPlugin(', '\tpluginCapabilities := []pluginframework.Capability{pluginframework.CapabilityTrustedIdentityVerifier}\n\tverificationPluginName, err := getVerificationPlugin(')]),
+      why='with no plugin named the caller\'s own list routes the native identity check away to nobody'),
+]
+
+# the body helper handing back ONE result object
+BODY_STRUCT = ('type locatedPlugin struct {\n\tinstalled    pluginframework.VerifyPlugin\n\tcapabilities []pluginframework.Capability\n}\n\n' +
+    sub(BODY_HELPER.replace('(pluginframework.VerifyPlugin, []pluginframework.Capability, error) {', '(locatedPlugin, error) {').replace('return nil, nil, ', 'return locatedPlugin{}, '),
+        '\treturn installedPlugin, pluginCapabilities, nil\n', '\treturn locatedPlugin{installed: installedPlugin, capabilities: pluginCapabilities}, nil\n'))
+BODY_CALL_STRUCT = '''		located, err := v.locateVerificationPlugin(ctx, verificationPluginName, &outcome.EnvelopeContent.SignerInfo, pluginConfig)
+		if err != nil {
+			return err
+		}
+		installedPlugin, pluginCapabilities = located.installed, located.capabilities
+'''
+VARIANTS += [
+ dict(name='benign-lookup-body-helper-result-object', expect='silent', edits=body_shape(helper=BODY_STRUCT, call=BODY_CALL_STRUCT),
+      why='the body helper hands back locatedPlugin{installed, capabilities}; the caller copies the two fields into its locals'),
+ dict(name='lookup-body-helper-result-object-without-plugin', expect='flagged(plugin/lookup-results)',
+      edits=body_shape(helper=sub(BODY_STRUCT, 'locatedPlugin{installed: installedPlugin, capabilities: pluginCapabilities}, nil', 'locatedPlugin{capabilities: pluginCapabilities}, nil'), call=BODY_CALL_STRUCT),
+      why='the result object of the body helper carries the capabilities but not the plugin that was looked up'),
+ dict(name='lookup-body-helper-result-object-raw-capabilities', expect='flagged(routing/declared-capabilities)',
+      edits=body_shape(helper=sub(BODY_STRUCT, 'locatedPlugin{installed: installedPlugin, capabilities: pluginCapabilities}, nil', 'locatedPlugin{installed: installedPlugin, capabilities: metadata.Capabilities}, nil'), call=BODY_CALL_STRUCT)),
+]
+VARIANTS += [
+ dict(name='lookup-body-helper-plugin-dropped-by-caller', expect='flagged(critical-attr-accounting/no-plugin-named)',
+      edits=body_shape(call=sub(BODY_CALL, 'installedPlugin, pluginCapabilities, err = v.locate', '_, pluginCapabilities, err = v.locate')),
+      why='the caller keeps the capabilities of the named plugin (native checks routed away) but not the plugin: nothing is ever executed'),
+]
